@@ -216,7 +216,7 @@ static void judge_fgets(FILE* f, const string& payload, const char* kind, const 
     desc = fmt("call %zu returned %zu bytes (ends with newline: %d); the line in the stream has %zu bytes (incl. newline: %d)", i + 1, g.size(),
         (int)(!g.empty() && g.back() == '\n'), e.size(), (int)(e.back() == '\n'));
   }
-  C->violation(key, "fgets(FILE*) did not return the bytes up to and including the next newline (or to end of stream): " + desc, kase() + " -> " + desc);
+  VIOL(key, "fgets(FILE*) did not return the bytes up to and including the next newline (or to end of stream): " + desc, kase() + " -> " + desc);
 }
 
 struct FgetsPlan {
